@@ -246,6 +246,11 @@ func (m *Replica) Action(action string, obj interface{}) error {
 	if m.fail("a." + action) {
 		return ErrREST
 	}
+	if action != "open" && len(m.Chain) == 0 {
+		// a replica that reports no chain has no open volume (s.r == nil): every
+		// management action on it is refused
+		return errors.New("zz: replica has no open volume")
+	}
 	switch action {
 	case "open":
 		if m.State != "closed" {
